@@ -15,14 +15,18 @@ structure WFK (X : Nat → Prop) (seq0 : Nat) (k' k : Key) : Prop where
   lv : ∀ y, ¬ X y → k'.hasRec y → (k'.getR y).timeouted = false → (k'.getR y).toWaiter = (k.getR y).toWaiter
   hd : ∀ y, ¬ X y → k'.hasRec y → 0 < (k'.getR y).depth →
     (k'.getR y).toHold = (k.getR y).toHold ∨ ((k.getR y).timeouted = false ∧ seq0 ≤ (k'.getR y).hid)
+  /-- every hold (the records in `X` included) kept its identity, or was granted by the step -/
+  hh : ∀ y, k'.hasRec y → 0 < (k'.getR y).depth →
+    ((k'.getR y).hid = (k.getR y).hid ∧ 0 < (k.getR y).depth) ∨ ((k.getR y).timeouted = false ∧ seq0 ≤ (k'.getR y).hid)
 
 namespace WFK
 variable {X : Nat → Prop} {seq0 : Nat}
 
-theorem refl (k : Key) : WFK X seq0 k k := ⟨fun _ h => h, fun _ _ => ⟨rfl, rfl⟩, fun _ _ h => h, fun _ _ _ _ => rfl, fun _ _ _ _ => Or.inl rfl⟩
+theorem refl (k : Key) : WFK X seq0 k k :=
+  ⟨fun _ h => h, fun _ _ => ⟨rfl, rfl⟩, fun _ _ h => h, fun _ _ _ _ => rfl, fun _ _ _ _ => Or.inl rfl, fun _ _ h => Or.inl ⟨rfl, h⟩⟩
 
 theorem trans {a b c : Key} (h1 : WFK X seq0 a b) (h2 : WFK X seq0 b c) : WFK X seq0 a c := by
-  refine ⟨fun y hy => h2.sub y (h1.sub y hy), ?_, ?_, ?_, ?_⟩
+  refine ⟨fun y hy => h2.sub y (h1.sub y hy), ?_, ?_, ?_, ?_, ?_⟩
   · intro y hy
     obtain ⟨a1, a2⟩ := h1.cc y hy
     obtain ⟨b1, b2⟩ := h2.cc y (h1.sub y hy)
@@ -44,25 +48,36 @@ theorem trans {a b c : Key} (h1 : WFK X seq0 a b) (h2 : WFK X seq0 b c) : WFK X 
         have h' : (a.getR y).hid = (b.getR y).hid := this
         omega
     · exact Or.inr ⟨h2.nr y (h1.sub y hy) e1, e2⟩
+  · intro y hy hd
+    rcases h1.hh y hy hd with ⟨e1, e2⟩ | ⟨e1, e2⟩
+    · rcases h2.hh y (h1.sub y hy) e2 with ⟨e1', e2'⟩ | ⟨e1', e2'⟩
+      · exact Or.inl ⟨e1.trans e1', e2'⟩
+      · exact Or.inr ⟨e1', by omega⟩
+    · exact Or.inr ⟨h2.nr y (h1.sub y hy) e1, e2⟩
 
 theorem mono {X' : Nat → Prop} {seq0' : Nat} {k' k : Key} (h : WFK X seq0 k' k) (hx : ∀ y, X y → X' y) (hs : seq0' ≤ seq0) : WFK X' seq0' k' k := by
-  refine ⟨h.sub, h.cc, h.nr, fun y hy => h.lv y (fun h' => hy (hx y h')), fun y hy hh hd => ?_⟩
-  rcases h.hd y (fun h' => hy (hx y h')) hh hd with e | ⟨e1, e2⟩
-  · exact Or.inl e
-  · exact Or.inr ⟨e1, by omega⟩
+  refine ⟨h.sub, h.cc, h.nr, fun y hy => h.lv y (fun h' => hy (hx y h')), fun y hy hh hd => ?_, fun y hh hd => ?_⟩
+  · rcases h.hd y (fun h' => hy (hx y h')) hh hd with e | ⟨e1, e2⟩
+    · exact Or.inl e
+    · exact Or.inr ⟨e1, by omega⟩
+  · rcases h.hh y hh hd with e | ⟨e1, e2⟩
+    · exact Or.inl e
+    · exact Or.inr ⟨e1, by omega⟩
 
 /-- same records -/
 theorem of_recs {k' k : Key} (h : k'.recs = k.recs) : WFK X seq0 k' k := by
   have hg : ∀ y, k'.getR y = k.getR y := fun y => by unfold Key.getR; rw [h]
   have hh : ∀ y, k'.hasRec y ↔ k.hasRec y := fun y => by unfold Key.hasRec; rw [h]
   exact ⟨fun y hy => (hh y).mp hy, fun y _ => by rw [hg]; exact ⟨rfl, rfl⟩, fun y _ hl => by rw [← hg]; exact hl, fun y _ _ _ => by rw [hg],
-    fun y _ _ _ => Or.inl (by rw [hg])⟩
+    fun y _ _ _ => Or.inl (by rw [hg]), fun y _ hd => Or.inl ⟨by rw [hg], by rw [← hg]; exact hd⟩⟩
 
 /-- every record outside `X` keeps its stage-1 view; the records in `X` keep command and connection and do not come to life -/
 theorem of_pkx {k' k : Key} (p : PKeepX πA X k' k)
     (hx : ∀ y, X y → k'.hasRec y → k.hasRec y ∧ (k'.getR y).cmd = (k.getR y).cmd ∧ (k'.getR y).conn = (k.getR y).conn ∧
-      ((k'.getR y).timeouted = false → (k.getR y).timeouted = false)) : WFK X seq0 k' k := by
-  refine ⟨?_, ?_, ?_, ?_, ?_⟩
+      ((k'.getR y).timeouted = false → (k.getR y).timeouted = false) ∧
+      (0 < (k'.getR y).depth → ((k'.getR y).hid = (k.getR y).hid ∧ 0 < (k.getR y).depth) ∨ ((k.getR y).timeouted = false ∧ seq0 ≤ (k'.getR y).hid))) :
+    WFK X seq0 k' k := by
+  refine ⟨?_, ?_, ?_, ?_, ?_, ?_⟩
   · intro y hy
     by_cases h : X y
     · exact (hx y h hy).1
@@ -74,12 +89,19 @@ theorem of_pkx {k' k : Key} (p : PKeepX πA X k' k)
       exact ⟨cmd_of_πA hv, conn_of_πA hv⟩
   · intro y hy hl
     by_cases h : X y
-    · exact (hx y h hy).2.2.2 hl
+    · exact (hx y h hy).2.2.2.1 hl
     · rw [← timeouted_of_πA (p.val y h hy)]; exact hl
   · intro y h hy _
     exact congrArg (fun t => t.2.1) (p.val y h hy)
   · intro y h hy _
     exact Or.inl (congrArg (fun t => t.1) (p.val y h hy))
+  · intro y hy hd
+    by_cases h : X y
+    · exact (hx y h hy).2.2.2.2 hd
+    · have e := congrArg (fun t => t.1) (p.val y h hy)
+      have e1 : (k'.getR y).hid = (k.getR y).hid := congrArg Engine.Hold.hid e
+      have e2 : (k'.getR y).depth = (k.getR y).depth := congrArg Engine.Hold.depth e
+      exact Or.inl ⟨e1, by rw [← e2]; exact hd⟩
 
 theorem of_pk {k' k : Key} (p : PKeep πA k' k) : WFK X seq0 k' k :=
   (of_pkx (X := fun _ => False) (PKeepX.of_pk p) (fun _ h => absurd h id)).mono (fun _ h => absurd h id) (Nat.le_refl _)
@@ -130,54 +152,53 @@ theorem wakeOne_wfk {w : W} (g : Good w) (rid : Nat) (hh : w.k.hasRec rid) (hd :
   have px := wakeOne_others w rid
   have pc := pkC_wakeOne w rid
   obtain ⟨_, s2, _⟩ := wakeOne_spec w rid
+  -- the granted record: if it is a hold, its identity is the sequence number spent on it
+  have hgr : (w.wakeOne rid).k.hasRec rid → 0 < ((w.wakeOne rid).k.getR rid).depth → w.db.seq ≤ ((w.wakeOne rid).k.getR rid).hid := by
+    intro hy hdp
+    rw [wakeOne_eq] at hdp ⊢
+    have hpre : (wakePre w rid).k.hasRec rid := by
+      unfold wakePre
+      show (((w.modR rid (fun r => { r with timeouted := true })).dropLongT rid).k).hasRec rid
+      have h0 : (w.modR rid (fun r => { r with timeouted := true })).k.hasRec rid :=
+        (hasRec_modR w rid rid (fun r => { r with timeouted := true }) (fun _ => rfl)).mpr hh
+      unfold W.dropLongT W.when
+      split
+      · exact (getR_removeLongT _ rid h0).1
+      · exact h0
+    split at hdp
+    · rename_i hc
+      rw [if_pos hc]
+      obtain ⟨r1, _⟩ := grant_recI (wakePre w rid) rid hpre
+      rw [r1, (wakePre_db w rid).1]
+      exact Nat.le_refl _
+    · rename_i hc
+      exfalso
+      have dk : DK ((((wakePre w rid).grantNoHold rid).ctr (fun c => { c with lockCount := c.lockCount + 1 })).reply
+          { ((wakePre w rid).k.getR rid).cmd with conn := ((wakePre w rid).k.getR rid).conn } Engine.RESULT_SUCCED 0 (wakePre w rid).lockData) w := by
+        refine DK.trans (DK.of_k rfl) (DK.trans (DK.of_k rfl) ((dk_grantNoHold _ rid).trans ?_))
+        unfold wakePre
+        exact DK.trans (DK.of_k rfl) ((dk_dropLongT _ rid).trans (dk_modR w rid _ (fun _ => rfl) (fun _ => rfl)))
+      have hsame := dk.depth rid (by
+        have := hy
+        rw [wakeOne_eq, if_neg hc] at this
+        exact this)
+      rw [hsame, depth_zero_of_live g rid hh hl] at hdp
+      exact absurd hdp (by simp)
   have h1 : WFK (· = rid) w.db.seq (w.wakeOne rid).k w.k := by
     refine WFK.of_pkx px ?_
     intro y hy hyy
     subst hy
     have hv := pc.val y hyy
-    refine ⟨hh, congrArg (fun t => t.1) hv, congrArg (fun t => t.2) hv, fun hl' => ?_⟩
+    refine ⟨hh, congrArg (fun t => t.1) hv, congrArg (fun t => t.2) hv, fun hl' => ?_, fun hdp => Or.inr ⟨hl, hgr hyy hdp⟩⟩
     rw [s2 hyy] at hl'; exact absurd hl' (by simp)
-  refine ⟨h1.sub, h1.cc, h1.nr, ?_, ?_⟩
+  refine ⟨h1.sub, h1.cc, h1.nr, ?_, ?_, h1.hh⟩
   · intro y _ hy hl'
     by_cases e : y = rid
     · subst e; rw [s2 hy] at hl'; exact absurd hl' (by simp)
     · exact h1.lv y e hy hl'
   · intro y _ hy hdp
     by_cases e : y = rid
-    · subst e
-      right
-      refine ⟨hl, ?_⟩
-      -- the granted record: its identity is the sequence number spent on it
-      rw [wakeOne_eq] at hdp ⊢
-      have hpre : (wakePre w y).k.hasRec y := by
-        have := (wakePre_sx w y).p
-        -- `wakePre` edits record `y` only
-        unfold wakePre
-        show (((w.modR y (fun r => { r with timeouted := true })).dropLongT y).k).hasRec y
-        have h0 : (w.modR y (fun r => { r with timeouted := true })).k.hasRec y := (hasRec_modR w y y (fun r => { r with timeouted := true }) (fun _ => rfl)).mpr hh
-        unfold W.dropLongT W.when
-        split
-        · exact (getR_removeLongT _ y h0).1
-        · exact h0
-      split at hdp
-      · rename_i hc
-        rw [if_pos hc]
-        obtain ⟨r1, _⟩ := grant_recI (wakePre w y) y hpre
-        rw [r1, (wakePre_db w y).1]
-        exact Nat.le_refl _
-      · rename_i hc
-        exfalso
-        have dk : DK ((((wakePre w y).grantNoHold y).ctr (fun c => { c with lockCount := c.lockCount + 1 })).reply
-            { ((wakePre w y).k.getR y).cmd with conn := ((wakePre w y).k.getR y).conn } Engine.RESULT_SUCCED 0 (wakePre w y).lockData) w := by
-          refine DK.trans (DK.of_k rfl) (DK.trans (DK.of_k rfl) ((dk_grantNoHold _ y).trans ?_))
-          unfold wakePre
-          exact DK.trans (DK.of_k rfl) ((dk_dropLongT _ y).trans (dk_modR w y _ (fun _ => rfl) (fun _ => rfl)))
-        have hsame := dk.depth y (by
-          have := hy
-          rw [wakeOne_eq, if_neg hc] at this
-          exact this)
-        rw [hsame, depth_zero_of_live g y hh hl] at hdp
-        exact absurd hdp (by simp)
+    · subst e; exact Or.inr ⟨hl, hgr hy hdp⟩
     · exact h1.hd y e hy hdp
 
 theorem removeIfZero_recs (w : W) : w.removeIfZero.k.recs = w.k.recs := by
